@@ -1,6 +1,7 @@
 """C17 — rendering is pure: cached, repeated and pre-filled-stream renders give the same text."""
 from vlib import core
 from checks import c02 as G
+from checks import _tmpl_streams as T
 
 META = {
     "property_id": "C17",
@@ -102,6 +103,7 @@ def run(ctx):
     ctx.count("fresh-vs-cached-vs-prefilled (value and tags dumped before/after each render)", len(lines), len(set(lines)),
               sample={"stream": "cache", "input": lines[0][:300] if lines else "", "impl": impl[0] if impl else ""})
     ctx.count("6-threads-sharing-tags-and-value", len(thr_lines), len(set(thr_lines)))
+    T.c17_round_c(ctx, exe, lines)      # copies of the tag array; appended renders with carry-out reals (round c)
     # ---- the same threaded run under ThreadSanitizer (no ASan) ----
     tsan_flags = [f for f in core.SAN_FLAGS if not f.startswith("-fsanitize=") and not f.startswith("-fno-sanitize")] + ["-fsanitize=thread"]
     texe = ctx.build_harness("template_harness.cpp", flags=tsan_flags, tag="tsan")
@@ -123,5 +125,5 @@ def run(ctx):
 
 
 FINISH = dict(level="proof",
-              rule="generated well-formed templates (incl. block tags nested 7..13 deep, sort= on loops) x value trees (incl. pointer-to-value members as loop sets): fresh render, render filling a tags cache, render from that cache into a pre-filled stream, Stringify of the value and of every pointer target and the tag dump before/after every render; 6 threads x 3 renders sharing tags and value (ASan build and ThreadSanitizer build); widths 1 and 2",
+              rule="generated well-formed templates (incl. block tags nested 7..13 deep, sort= on loops) x value trees (incl. pointer-to-value members as loop sets): fresh render, render filling a tags cache, render from that cache into a pre-filled stream, Stringify of the value and of every pointer target and the tag dump before/after every render; 6 threads x 3 renders sharing tags and value (ASan build and ThreadSanitizer build); widths 1 and 2; round c: renders through copy-constructed / copy-assigned / appended copies of the tag array; for every pre-existing stream length 0..64 several values rendered consecutively through one cache into one stream, values incl. reals whose rounding carries out of the top digit",
               checker_cmd="cd lean && lake build Qentem.Props.C17 && lake env lean <#print axioms>")
